@@ -379,6 +379,9 @@ pub enum EvOp {
     Connect(u8),
     /// The client's transport spends four frames in `Connecting` before it is `Connected`.
     ConnectSlowly(u8),
+    /// The connection is lost; the client's transport reports `Connecting` for one frame before
+    /// it reports `Disconnected`.
+    DisconnectSlowly(u8),
     /// The backend re-inserts `ConnectedClient` on a live connection (e.g. to change `max_size`).
     TouchConnection(u8),
     Disconnect(u8),
@@ -447,6 +450,7 @@ impl EvOp {
             EvOp::Connect(c) => format!("connect c{c}"),
             EvOp::ConnectSlowly(c) => format!("connect c{c} after four frames in Connecting"),
             EvOp::TouchConnection(c) => format!("re-insert ConnectedClient on c{c}'s connection"),
+            EvOp::DisconnectSlowly(c) => format!("disconnect c{c}, its transport retries for a frame first"),
             EvOp::Disconnect(c) => format!("disconnect c{c}"),
             EvOp::Authorize(c) => format!("authorize c{c}"),
             EvOp::StopServer => "stop server".into(),
@@ -643,7 +647,7 @@ impl EvCell {
                     })
             }
             EvOp::Connect(c) | EvOp::ConnectSlowly(c) => !Self::connected(x, c as usize) && x.sim.server_running(),
-            EvOp::TouchConnection(c) => Self::connected(x, c as usize),
+            EvOp::TouchConnection(c) | EvOp::DisconnectSlowly(c) => Self::connected(x, c as usize),
             EvOp::StopServer => x.sim.server_running(),
             EvOp::StartServer => !x.sim.server_running(),
             EvOp::StartServerWith(c) => !x.sim.server_running() && !Self::connected(x, c as usize),
@@ -689,6 +693,13 @@ impl EvCell {
             EvOp::World(op) => x.sim.apply_op(op),
             EvOp::Connect(c) => x.sim.connect(c as usize),
             EvOp::ConnectSlowly(c) => x.sim.connect_slowly(c as usize, 4),
+            EvOp::DisconnectSlowly(c) => {
+                if let Some(conn) = x.sim.clients[c as usize].conn {
+                    x.closed_conns.insert(conn.to_bits());
+                }
+                Self::note_orphans(x, c as usize);
+                x.sim.disconnect_slowly(c as usize);
+            }
             EvOp::TouchConnection(c) => {
                 let conn = x.sim.clients[c as usize].conn.unwrap();
                 let max_size = x.sim.clients[c as usize].max_size;
@@ -1546,7 +1557,12 @@ impl Scenario for EvCell {
                 if op != EvOp::Nop {
                     x.ops_applied += 1;
                 }
-                self.apply_ev_op(x, op);
+                // observers of the library run inside the operation: a panic there is the library's
+                if let Err((msg, loc)) = guarded(|| self.apply_ev_op(x, op)) {
+                    return Err(Violation::new(self.property, "panic", format!("the operation `{}` panicked inside the library: {msg} ({})", op.show(), short_loc(&loc)))
+                        .feat("side:server")
+                        .feat(format!("at:{}", short_loc(&loc))));
+                }
                 self.advance(x);
             }
             Phase::Tick => {
